@@ -628,7 +628,9 @@ func main() {
 				for _, cert := range fileStates["cert"] {
 					for _, key := range fileStates["key"] {
 						// quick: full (cfg, ehv) x ca, key pairs sampled; thorough: everything
-						if tier != "thorough" && !(cert == "absent" && key == "absent") && !(cert == "valid" && key == "valid") && r.Intn(12) != 0 {
+						caGood := ca == "absent" || ca == "valid"
+						pairKnown := (cert == "absent" && key == "absent") || (cert == "valid" && key == "valid") || (cert == "foreign" && key == "foreign")
+						if tier != "thorough" && !pairKnown && !(caGood && r.Intn(3) == 0) && r.Intn(16) != 0 {
 							continue
 						}
 						spare := "0"
